@@ -75,6 +75,16 @@ def main(argv=None):
             chk.selftest = selftest(pid)
         return chk.finish()
     except astdb.AnalysisBroken as e:
+        if chk.has_unlisted():
+            # a violation established before the analysis lost its footing stays a violation: report it (exit 1) and say
+            # that the rest of the rules could not be evaluated
+            print("ANALYSIS-INCOMPLETE property=%s: %s (violations found before this point are reported)" % (pid, e),
+                  file=sys.stderr)
+            chk.note("analysis incomplete after the reported violations: %s" % e)
+            try:
+                return chk.finish()
+            except astdb.AnalysisBroken:
+                pass
         print("ANALYSIS-BROKEN property=%s: %s" % (pid, e), file=sys.stderr)
         return 2
     except Exception:
